@@ -1,14 +1,61 @@
 (* C18 - Standstill recovery re-broadcasts a bundle sufficient to catch up, at any time.
-   PARTIAL: proved for the model - recovery is safe while only genesis is finalized (the pinned tree
-   panicked there), and the bundle consists of exactly the final certificates of the highest finalized
-   slot, every held certificate of later slots and the own votes of later slots, without touching the
-   state.  Validity of every bundle element at a receiver and sufficiency (a fresh node reaching the
-   same finalized slot and ready parents) are decided by the oracle c18_step_ok, by validating every
-   element with the real ValidatedCert/ValidatedVote::try_new and by replaying the bundle into a second
-   real pool (harness), after every kind of history and at random prefixes.  That Votor forwards the
-   bundle regardless of its pruning state is part of the Votor model (C05 check). *)
+
+   PROVED for the model (Model/Pool.v), for EVERY pool reachable from pool_init by ANY sequence of pool
+   operations (votes of any signers, received certificates, block registrations, standstill triggers, waiter
+   registrations; any stakes, any order) that has not panicked [pool_reachable e p, p_panicked p = false]:
+
+   SAFE, PURE  C18_recovery_total: triggering recovery never panics (whatever has or has not been finalized,
+               after every prefix of every history), leaves the pool unchanged, asks for no repair and emits
+               exactly one Standstill event for slot finalized+1 whose contents are [bundle_certs p] /
+               [bundle_votes e p]; C18_recovery_never_panics; C18_recovery_safe_at_genesis and the pinned tree's
+               panic on a fresh pool (C18_pinned_recovery_at_genesis_refuted) are kept.
+   VALIDITY    C18_bundle_proves_finalized_slot: unless only genesis is finalized, the bundle starts with a
+               fast-finalization certificate of the highest finalized slot, or with a finalization and a
+               notarization certificate of that slot.
+               C18_bundle_certs_held / C18_bundle_certs_complete: every certificate of the bundle is held by
+               the pool in the state of its own slot, none is older than the finalized slot, and every
+               certificate held for a later slot is in the bundle.
+               C18_bundle_certs_valid: every certificate of the bundle meets its threshold when a receiver
+               recounts the stake of its signers (ValidatedCert::try_new's threshold check), provided the
+               certificates the pool RECEIVED did (Pool::add_cert takes a ValidatedCert) and the total stake is
+               positive; created certificates do by the slot-state invariants (C03).
+               C18_bundle_votes_own / C18_bundle_votes_complete: the votes of the bundle are exactly the node's
+               own stored votes for slots above the finalized slot.
+   SUFFICIENCY C18_bundle_sufficient: a pool that starts EMPTY (any epoch description: the receiver is another
+               validator) and receives the certificates of the bundle - each at least once, in ANY order, with
+               any repetitions - provided all of them lie inside the window a fresh pool accepts
+               (slot < 2 * SLOTS_PER_EPOCH, decidable predicate in_window): does not panic, ends with finalized
+               slot EQUAL to the sender's, holds for every slot from the finalized slot on exactly the
+               certificates of the bundle for that slot (the sender's own certificate objects), and nothing else.
+               C18_bundle_ready_parents: every block that the certificates of the bundle alone make a ready
+               parent of a window start (a notarization / notar-fallback / fast-finalization certificate of the
+               bundle for the block, a skip certificate of the bundle for every slot in between) is a ready
+               parent of that window at the receiver; C18_bundle_ready_parents_at_sender: the same holds at
+               the sender when the block's certificate is a notarization / notar-fallback certificate (a
+               certificate held for an unpruned slot has set its tracker mark, in every reachable pool), so
+               sender and receiver agree on these parents.  What the receiver cannot learn from the bundle are
+               ready parents that the sender derived from parent links (implicitly finalized / skipped slots)
+               or from certificates of slots below its finalized slot: the bundle carries no block registrations.
+   FINDING     C18_bundle_refused_beyond_window: as soon as the sender's highest finalized slot is
+               2 * SLOTS_PER_EPOCH (36000) or more, a fresh pool refuses EVERY element of the bundle as
+               SlotOutOfBounds (Pool::add_cert: slot >= finalized_slot + 2 * SLOTS_PER_EPOCH, with
+               finalized_slot = 0), in whatever order and however often it is delivered, and stays exactly the
+               empty pool: the sufficiency clause of the property is false there
+               (C18_sufficiency_beyond_window_refuted: concrete two-certificate history).
+
+   FORWARDING  C18_votor_forwards_bundle: the Votor model hands every Standstill event on as the broadcast of
+               exactly its certificates and votes, in every (non-panicked) Votor state, pruned or not; the
+               correspondence of that model with the real Votor is the C05 / votor:pool-standstill check.
+
+   NOT PROVED here (oracle c18_step_ok / harness only): EQUALITY of the ready-parent lists of sender and
+   receiver (the oracle compares them on generated, consistent histories; proved is the inclusion above, the
+   receiver's lists are sound by the C07 theorems); what the bundle's VOTES add at the receiver; signature
+   validity of the bundle elements (ValidatedCert / ValidatedVote::try_new on the real objects, harness);
+   bundles whose certificates reach beyond slot 2 * SLOTS_PER_EPOCH while the finalized slot is below it (there
+   the outcome depends on the delivery order). *)
 From Coq Require Import List NArith Bool.
-From AG Require Import Gen.Params Model.Pool Model.PoolSpec Proofs.TrackerProofs.
+From AG Require Import Gen.Params Model.Pool Model.PoolSpec Model.Votor Proofs.TrackerProofs Proofs.VotorProofs
+  Proofs.PoolProgressProofs Proofs.StandstillProofs Proofs.StandstillReady.
 Import ListNotations.
 Open Scope N_scope.
 
@@ -29,6 +76,142 @@ Theorem C18_bundle_contents : forall e p p' r o,
                    (flat_map (fun kv => own_votes_of_slot e (fst kv) (snd kv)) later)].
 Proof. exact standstill_bundle_contents. Qed.
 
+(* ---------- safe in every state, no state change ---------- *)
+Theorem C18_recovery_total : forall e p,
+  pool_reachable e p -> p_panicked p = false ->
+  pool_step e p OpStandstill =
+  (p, RVerdict VNone, mkPO [EStandstill (finalized_slot p + 1) (bundle_certs p) (bundle_votes e p)] []).
+Proof. exact reachable_standstill_total. Qed.
+
+Theorem C18_recovery_never_panics : forall e p,
+  pool_reachable e p -> p_panicked p = false -> snd (fst (pool_step e p OpStandstill)) <> RPanic.
+Proof. exact reachable_standstill_never_panics. Qed.
+
+(* ---------- validity ---------- *)
+Theorem C18_bundle_proves_finalized_slot : forall e p,
+  pool_reachable e p -> finalized_slot p <> 0 ->
+  exists l,
+    ((exists c h, l = [c] /\ c_kind c = CFastFinal h /\ c_slot c = finalized_slot p) \/
+     (exists cf cn h, l = [cf; cn] /\ c_kind cf = CFinal /\ c_slot cf = finalized_slot p /\
+                      c_kind cn = CNotar h /\ c_slot cn = finalized_slot p)) /\
+    forall c, In c l -> In c (bundle_certs p).
+Proof. exact reachable_bundle_final_certs. Qed.
+
+Theorem C18_bundle_certs_held : forall e p c,
+  pool_reachable e p -> In c (bundle_certs p) ->
+  In c (certs_of_slot (p_ss p (c_slot c))) /\ finalized_slot p <= c_slot c.
+Proof. exact reachable_bundle_certs_held. Qed.
+
+Theorem C18_bundle_certs_complete : forall e p s c,
+  pool_reachable e p -> finalized_slot p < s -> In c (certs_of_slot (p_ss p s)) -> In c (bundle_certs p).
+Proof. exact reachable_bundle_certs_complete. Qed.
+
+Theorem C18_bundle_certs_valid : forall e ops c,
+  0 < total_stake e -> forallb (op_cert_ok e) ops = true ->
+  let p := pool_run e pool_init ops in
+  p_panicked p = false -> In c (bundle_certs p) -> cert_threshold_ok e c = true.
+Proof. exact bundle_certs_valid. Qed.
+
+Theorem C18_bundle_votes_own : forall e p v,
+  pool_reachable e p -> In v (bundle_votes e p) ->
+  v_signer v = own e /\ finalized_slot p < v_slot v /\ stored (p_ss p (v_slot v)) (own e) (v_kind v).
+Proof. exact reachable_bundle_votes_own. Qed.
+
+Theorem C18_bundle_votes_complete : forall e p s k,
+  pool_reachable e p -> finalized_slot p < s -> stored (p_ss p s) (own e) k -> In (mkVote s k (own e)) (bundle_votes e p).
+Proof. exact reachable_bundle_votes_complete. Qed.
+
+(* ---------- sufficiency ---------- *)
+Theorem C18_bundle_sufficient : forall e e' p l,
+  pool_reachable e p -> incl l (bundle_certs p) -> incl (bundle_certs p) l -> in_window l = true ->
+  let q := feed e' pool_init l in
+  p_panicked q = false /\
+  finalized_slot q = finalized_slot p /\
+  (forall s c, finalized_slot p <= s -> (In c (certs_of_slot (p_ss q s)) <-> In c (bundle_certs p) /\ c_slot c = s)) /\
+  (forall s c, In c (certs_of_slot (p_ss q s)) -> In c (bundle_certs p)).
+Proof. exact reachable_bundle_sufficient. Qed.
+
+(* ready parents: a block certified by a notarization / notar-fallback / fast-finalization certificate of the
+   bundle, with a skip certificate of the bundle for every slot up to a window start, is a ready parent of that
+   window at the receiver *)
+Theorem C18_bundle_ready_parents : forall e e' p l,
+  pool_reachable e p -> incl l (bundle_certs p) -> incl (bundle_certs p) l -> in_window l = true ->
+  let q := feed e' pool_init l in
+  forall sb h w, sb < w -> is_window_start w = true ->
+    (exists c, In c (bundle_certs p) /\ c_slot c = sb /\
+               (c_kind c = CNotar h \/ c_kind c = CNotarFb h \/ c_kind c = CFastFinal h)) ->
+    (forall k, sb < k < w -> exists c, In c (bundle_certs p) /\ c_slot c = k /\ c_kind c = CSkip) ->
+    In (sb, h) (pt_parents_ready (p_prt q) w).
+Proof. exact reachable_bundle_ready_parents. Qed.
+
+(* ... and, when the certificate for the block is a notarization / notar-fallback certificate, at the sender too:
+   on these parents sender and receiver agree *)
+Theorem C18_bundle_ready_parents_at_sender : forall e p,
+  pool_reachable e p -> p_panicked p = false ->
+  forall sb h w, sb < w -> is_window_start w = true ->
+    (exists c, In c (bundle_certs p) /\ c_slot c = sb /\ (c_kind c = CNotar h \/ c_kind c = CNotarFb h)) ->
+    (forall k, sb < k < w -> exists c, In c (bundle_certs p) /\ c_slot c = k /\ c_kind c = CSkip) ->
+    In (sb, h) (pt_parents_ready (p_prt p) w).
+Proof. exact reachable_bundle_ready_parents_sender. Qed.
+
+(* the voting component hands the bundle on unchanged, whatever its own (pruning) state *)
+Theorem C18_votor_forwards_bundle : forall own t s cs vs,
+  vt_panicked t = false ->
+  votor_step own t (VPool (EStandstill s cs vs)) = (t, map VBCert cs ++ map VBVote vs, false).
+Proof. exact standstill_forwarded. Qed.
+
+(* ---------- finding: the acceptance window of a fresh pool ---------- *)
+Theorem C18_bundle_refused_beyond_window : forall e e' p l,
+  pool_reachable e p -> 2 * SLOTS_PER_EPOCH <= finalized_slot p -> incl l (bundle_certs p) ->
+  feed e' pool_init l = pool_init.
+Proof. exact reachable_bundle_refused_beyond_window. Qed.
+
+Theorem C18_sufficiency_beyond_window_refuted :
+  let p := pool_run far_epoch pool_init far_ops in
+  p_panicked p = false /\ finalized_slot p = 40000 /\
+  bundle_certs p = [mkCert 40000 (CFastFinal 9) [0] [] 1] /\
+  forallb (op_cert_ok far_epoch) far_ops = true /\
+  snd (fst (pool_step far_epoch pool_init (OpCert (mkCert 40000 (CFastFinal 9) [0] [] 1)))) = RVerdict VOutOfBounds /\
+  finalized_slot (feed far_epoch pool_init (bundle_certs p)) = 0.
+Proof. exact bundle_sufficiency_refuted. Qed.
+
+(* ---------- non-vacuity: a reachable sender with a non-trivial bundle satisfying every hypothesis ---------- *)
+Definition ex_e := mkEpoch [1; 1; 1; 1; 1] 0.
+Definition ex_e' := mkEpoch [1; 1; 1; 1; 1] 3.
+Definition ex_ops : list pool_op :=
+  [OpVote (mkVote 1 (KNotar 11) 1); OpVote (mkVote 1 (KNotar 11) 2); OpVote (mkVote 1 (KNotar 11) 0);
+   OpVote (mkVote 1 KFinal 1); OpVote (mkVote 1 KFinal 2); OpVote (mkVote 1 KFinal 0);
+   OpVote (mkVote 2 KSkip 0); OpVote (mkVote 2 KSkip 3); OpVote (mkVote 2 KSkip 4);
+   OpVote (mkVote 3 (KNotar 33) 0); OpVote (mkVote 3 (KNotar 33) 3); OpVote (mkVote 3 (KNotar 33) 4);
+   OpCert (mkCert 5 (CNotarFb 55) [1; 2] [3] 3)].
+Definition ex_p := pool_run ex_e pool_init ex_ops.
+
+Example C18_nonvacuous :
+  p_panicked ex_p = false /\ finalized_slot ex_p = 1 /\
+  (0 <? total_stake ex_e) = true /\ forallb (op_cert_ok ex_e) ex_ops = true /\
+  length (bundle_certs ex_p) = 6%nat /\
+  bundle_votes ex_e ex_p = [mkVote 2 KSkip 0; mkVote 3 (KNotar 33) 0] /\
+  in_window (rev (bundle_certs ex_p)) = true /\
+  (let q := feed ex_e' pool_init (rev (bundle_certs ex_p)) in
+   p_panicked q = false /\ finalized_slot q = 1 /\
+   pt_parents_ready (p_prt q) 4 = [(3, 33)] /\ pt_parents_ready (p_prt ex_p) 4 = [(3, 33)]).
+Proof. vm_compute. repeat split; reflexivity. Qed.
+
 Print Assumptions C18_recovery_safe_at_genesis.
 Print Assumptions C18_pinned_recovery_at_genesis_refuted.
 Print Assumptions C18_bundle_contents.
+Print Assumptions C18_recovery_total.
+Print Assumptions C18_recovery_never_panics.
+Print Assumptions C18_bundle_proves_finalized_slot.
+Print Assumptions C18_bundle_certs_held.
+Print Assumptions C18_bundle_certs_complete.
+Print Assumptions C18_bundle_certs_valid.
+Print Assumptions C18_bundle_votes_own.
+Print Assumptions C18_bundle_votes_complete.
+Print Assumptions C18_bundle_sufficient.
+Print Assumptions C18_bundle_ready_parents.
+Print Assumptions C18_bundle_ready_parents_at_sender.
+Print Assumptions C18_votor_forwards_bundle.
+Print Assumptions C18_bundle_refused_beyond_window.
+Print Assumptions C18_sufficiency_beyond_window_refuted.
+Print Assumptions C18_nonvacuous.
